@@ -63,6 +63,8 @@ def harnesses(tier, seed):
     hs = []
     for ty in ("E", "M", "F", "MF", "FM", "FMF", "FL", "FLF"):
         for opname in ("map", "filter", "filter_map", "flat_map"):
+            if tier == "quick" and ty == "FLF" and opname in ("filter_map", "flat_map"):
+                continue  # three eager sites on the same inner collect (~3.5 min each): one of them in the quick tier
             hs.append(compose(ty, opname, (2 if ty == "FLF" else 3) if tier == "quick" else (3 if ty == "FLF" else 4)))
     if tier == "quick":
         hs += [scalar("count", "MF", 3, 2, 1), scalar("count", "FMF", 3, 2, 2), scalar("reduce_xor", "FLF", 3, 2, 1),
@@ -70,6 +72,8 @@ def harnesses(tier, seed):
         for ty, cvs in (("M", [(1, 1)]), ("MF", [(1, 0), (1, 1)]), ("FMF", [(0, 1), (1, 1)]), ("FLF", [(2, 1), (0, 2)])):
             for owners in ([1, 0], [0, 0]):
                 for k in cvs:
+                    if ty == "FLF" and owners == [0, 0] and k == (2, 1):
+                        continue
                     hs.append(collect("collect_vec", ty, 2, 2, 1, owners, k))
             if ty != "FLF":  # the flat_map col_x kernel costs ~5 min per query (see C07); thorough tier only
                 hs.append(collect("collect_x", ty, 2, 2, 1, [1, 0], cvs[-1]))
